@@ -115,13 +115,30 @@ func (c *Ctx) inlineTypeAccessorLocals(fd *ast.FuncDecl) int {
 		if o == nil || assigned[o] != 1 || addrTaken[o] {
 			return true
 		}
-		nt, ok := o.Type().(*types.Named)
-		if !ok || nt.Obj().Pkg() == nil || nt.Obj().Pkg().Path() != typesPath {
+		calls := 0
+		if !pureChain(as.Rhs[0], &calls) {
 			return true
 		}
-		calls := 0
-		if !pureChain(as.Rhs[0], &calls) || calls == 0 {
-			return true
+		if calls == 0 {
+			// a copy of a member of a stored definition (`arch := dm.arch`): definitions are immutable once
+			// parsed (C13-R3-definition-immutable), so the copy equals the member at every use
+			sel, ok := unparen(as.Rhs[0]).(*ast.SelectorExpr)
+			if !ok {
+				return true
+			}
+			bt := info.TypeOf(sel.X)
+			if pt, isPtr := bt.Underlying().(*types.Pointer); isPtr {
+				bt = pt.Elem()
+			}
+			n, isNamed := bt.(*types.Named)
+			if !isNamed || n.Obj().Name() != "defmsg" {
+				return true
+			}
+		} else {
+			nt, ok := o.Type().(*types.Named)
+			if !ok || nt.Obj().Pkg() == nil || nt.Obj().Pkg().Path() != typesPath {
+				return true
+			}
 		}
 		subst[o] = as.Rhs[0]
 		defStmt[as] = true
